@@ -29,9 +29,9 @@ package vecnet
 //@   ensures[C17,C02] @counts-what-it-consumed result0 >= 0 && (result1 == nil ==> ghost("$consumed", int) == old(ghost("$consumed", int)) + int(result0))
 //@   ensures[C02,C17,C18] @success-means-every-buffer-is-full result1 == nil ==> int(result0) == old(sumlens(bufs))
 //@   ensures[C17] @bytes-land-in-stream-order !implements(r, syscall.Conn) && result1 == nil ==> forall(i, 0, len(bufs), forall(k, off(bufs[i]), off(bufs[i]) + len(bufs[i]), rawelem(bufs[i], k) == streamAt(old(ghost("$consumed", int)) + sumlens(bufs, i) + (k - off(bufs[i])))))
-//@   loop 0 invariant[C17,C02] 0 <= rangeindex + 1 && rangeindex + 1 <= len(bufs) && int(total) == sumlens(bufs, rangeindex + 1) && ghost("$consumed", int) == old(ghost("$consumed", int)) + int(total) && total >= 0 && !implements(r, syscall.Conn) && sumsnoc(bufs, rangeindex + 1)
+//@   loop 0 invariant[C02,C17,C18] 0 <= rangeindex + 1 && rangeindex + 1 <= len(bufs) && int(total) == sumlens(bufs, rangeindex + 1) && ghost("$consumed", int) == old(ghost("$consumed", int)) + int(total) && total >= 0 && !implements(r, syscall.Conn) && sumsnoc(bufs, rangeindex + 1)
 //@   loop 0 invariant[C17] forall_lastsplit(i, 0, rangeindex + 1, forall(k, off(bufs[i]), off(bufs[i]) + len(bufs[i]), rawelem(bufs[i], k) == streamAt(old(ghost("$consumed", int)) + sumlens(bufs, i) + (k - off(bufs[i])))))
-//@   loop 1 invariant[C17,C02] 0 <= filled && filled <= len(buf) && buf == bufs[rangeindex + 1] && 0 <= rangeindex + 1 && rangeindex + 1 < len(bufs) && int(total) == sumlens(bufs, rangeindex + 1) + filled && ghost("$consumed", int) == old(ghost("$consumed", int)) + int(total) && !implements(r, syscall.Conn)
+//@   loop 1 invariant[C02,C17,C18] 0 <= filled && filled <= len(buf) && buf == bufs[rangeindex + 1] && 0 <= rangeindex + 1 && rangeindex + 1 < len(bufs) && int(total) == sumlens(bufs, rangeindex + 1) + filled && ghost("$consumed", int) == old(ghost("$consumed", int)) + int(total) && !implements(r, syscall.Conn)
 //@   loop 1 invariant[C17] forall(k, off(bufs[rangeindex + 1]), off(bufs[rangeindex + 1]) + filled, rawelem(bufs[rangeindex + 1], k) == streamAt(old(ghost("$consumed", int)) + sumlens(bufs, rangeindex + 1) + (k - off(bufs[rangeindex + 1]))))
 //@   loop 1 invariant[C17] forall(i, 0, rangeindex + 1, forall(k, off(bufs[i]), off(bufs[i]) + len(bufs[i]), rawelem(bufs[i], k) == streamAt(old(ghost("$consumed", int)) + sumlens(bufs, i) + (k - off(bufs[i])))))
 //@   safety[C17,C02]
